@@ -2,6 +2,7 @@
 Every check = proof obligations (ctx.coq) + correspondence of the extracted pipeline model with
 cutadapt.cli.main on random valid option sets (focus differs per property) + an independent
 oracle restating the property on the implementation's own outputs (search for failing inputs)."""
+from fractions import Fraction
 import json
 import os
 
@@ -218,7 +219,8 @@ def oracle_c11(ent, d):
             cat, dest = "too_short", (1 if cfg.too_short_output else None)
         elif cfg.max_len is not None and n > cfg.max_len:
             cat, dest = "too_long", (2 if cfg.too_long_output else None)
-        elif cfg.max_n is not None and ((seq.lower().count("n") > cfg.max_n) if cfg.max_n >= 1 else (n > 0 and seq.lower().count("n") / n > cfg.max_n)):
+        elif cfg.max_n is not None and ((seq.lower().count("n") > cfg.max_n) if cfg.max_n >= 1 else
+                                         (n > 0 and Fraction(seq.lower().count("n"), n) > Fraction(repr(float(cfg.max_n))))):
             cat, dest = "too_many_n", None
         elif cfg.max_ee is not None and qual is not None and near_gt(expected_errors_py(qual), cfg.max_ee) is True:
             cat, dest = "too_many_expected_errors", None
@@ -474,8 +476,12 @@ def aligned_distances(ad, mid):
         return None
     eq = U.char_eq(ad.adapter_wildcards, ad.read_wildcards)
     out = set()
-    for a0 in range(len(seq) + 1):
-        for a1 in range(a0, len(seq) + 1):
+    import cutadapt.adapters as A
+
+    # an anchored adapter occurs in full
+    whole = isinstance(ad, (A.PrefixAdapter, A.SuffixAdapter))
+    for a0 in ([0] if whole else range(len(seq) + 1)):
+        for a1 in ([len(seq)] if whole else range(a0, len(seq) + 1)):
             part = seq[a0:a1]
             d = U.edit_distance(part, mid, eq) if ad.indels else U.hamming(part, mid, eq)
             if d is not None and d <= int(ad.max_error_rate * U.non_n(part, ad.adapter_wildcards)):
@@ -705,11 +711,7 @@ def oracle_c09_linked_required(ent):
     return None
 
 
-def no_index_possible(adapters):
-    """at most one anchored 5' and at most one anchored 3' adapter (linked ones are never indexed): AdapterCutter cannot build an index"""
-    pre = sum(1 for _, spec in adapters if "..." not in spec and spec.split("=", 1)[-1].startswith("^"))
-    suf = sum(1 for _, spec in adapters if "..." not in spec and spec.split("=", 1)[-1].split(";")[0].endswith("$"))
-    return pre <= 1 and suf <= 1
+no_index_possible = S.no_index_possible
 
 
 def tie_case(rng):
@@ -765,6 +767,71 @@ def casava_nospace_case(rng):
     return cfg, reads
 
 
+def indexed_info_case(rng):
+    """several anchored adapters of one kind, run WITH the adapter index, and an info file: reads carry inexact copies (substitution,
+    insertion, deletion) of one of the adapters, so the row must name the stretch that aligns to the whole adapter with the reported
+    number of errors"""
+    five = rng.random() < 0.5
+    k = rng.choice([2, 3, 4])
+    lens = [rng.choice([8, 10, 12])] * k if rng.random() < 0.5 else [rng.choice([7, 8, 9, 10, 11, 12]) for _ in range(k)]
+    seqs = []
+    while len(seqs) < k:
+        x = U.rand_seq(rng, lens[len(seqs)], "ACGT")
+        if all(x[:6] != y[:6] and x[-6:] != y[-6:] for y in seqs):
+            seqs.append(x)
+    ads = tuple((("-g", "ad%d=^%s" % (i, q)) if five else ("-a", "ad%d=%s$" % (i, q))) for i, q in enumerate(seqs))
+    cfg = S.Cfg(adapters=ads, error_rate=rng.choice([0.1, 0.15, 0.2, 0.25]), no_indels=rng.random() < 0.25, info_file=True, index=True,
+                action=rng.choice(["trim", "trim", "mask", "none", "lowercase"]), fasta=rng.random() < 0.3)
+    reads = []
+    for i in range(rng.choice([4, 8, 12])):
+        q = rng.choice(seqs)
+        occ = U.mutate(rng, q, rng.choice([0, 1, 1, 1, 2]), "ACGT") if rng.random() < 0.9 else U.rand_seq(rng, len(q), "ACGT")
+        rest = U.rand_seq(rng, rng.choice([0, 3, 9, 15]), "ACGT")
+        seq = occ + rest if five else rest + occ
+        reads.append(("r%d" % i, seq, None if cfg.fasta else "".join(chr(33 + rng.randint(2, 40)) for _ in seq)))
+    return cfg, reads
+
+
+def maxn_boundary_case(rng):
+    """--max-n with a fraction: reads whose share of N is exactly the threshold (kept), one N more (discarded), one N fewer (kept),
+    for read lengths and thresholds whose product is not exact in binary floating point"""
+    from decimal import Decimal
+
+    L = rng.choice([10, 20, 25, 40, 50, 100, 100, 125, 200, 250])
+    k = rng.randrange(1, L)
+    cfg = S.Cfg(max_n=float(str(Decimal(k) / Decimal(L))), fasta=rng.random() < 0.5)
+    reads = []
+    for i, kk in enumerate([k, k + 1, k - 1, k, rng.randrange(0, L + 1)]):
+        kk = min(kk, L)
+        pos = set(rng.sample(range(L), kk))
+        seq = "".join(("N" if rng.random() < 0.8 else "n") if j in pos else rng.choice("ACGT") for j in range(L))
+        reads.append(("r%d" % i, seq, None if cfg.fasta else "I" * L))
+    return cfg, reads
+
+
+def linked_dimer_case(rng):
+    """linked adapters on adapter dimers: nothing (or next to nothing) between the two parts, and a base deleted from the 3' part, so
+    that what is left after the 5' part is shorter than the 3' adapter (anchored, or with a minimum overlap of its full length)"""
+    fr = U.rand_seq(rng, rng.choice([6, 8]), "ACGT")
+    bk = U.rand_seq(rng, rng.choice([10, 12]), "ACGT")
+    flag = rng.choice(["-a", "-g"])
+    form = rng.choice(["%s...%s$", "^%s...%s$", "^%s...%s;min_overlap=%d" % ("%s", "%s", len(bk)), "%s;required...%s$"])
+    spec = "lk=" + form % (fr, bk)
+    cfg = S.Cfg(adapters=((flag, spec),), error_rate=rng.choice([0.1, 0.2]), action=rng.choice(["trim", "trim", "mask", "none", "lowercase"]),
+                fasta=rng.random() < 0.3, discard_untrimmed=rng.random() < 0.3, info_file=rng.random() < 0.4)
+    reads = []
+    for i in range(rng.choice([4, 8])):
+        b2 = bk
+        if rng.random() < 0.7:
+            p_ = rng.randrange(1, len(bk) - 1)
+            b2 = bk[:p_] + bk[p_ + 1:]          # one base deleted
+        ins = U.rand_seq(rng, rng.choice([0, 0, 0, 1, 2, 9]), "ACGT")
+        lead = "" if "^" in spec or rng.random() < 0.6 else U.rand_seq(rng, 2, "ACGT")
+        seq = lead + fr + ins + b2
+        reads.append(("r%d" % i, seq, None if cfg.fasta else "".join(chr(33 + rng.randint(2, 40)) for _ in seq)))
+    return cfg, reads
+
+
 def linked_rounds_case(rng):
     """a linked adapter whose two parts are both found in one round, followed by a further match of another adapter
     in a later round of the same read (--times >= 2): rows of later rounds must refer to what the earlier round left"""
@@ -809,6 +876,15 @@ def run(ctx, pid):
             continue
         if pid == "C09" and rng.random() < 0.1:
             cases.append(tie_case(rng))
+            continue
+        if pid in ("C09", "C03") and rng.random() < 0.05:
+            cases.append(linked_dimer_case(rng))
+            continue
+        if pid == "C11" and rng.random() < 0.08:
+            cases.append(maxn_boundary_case(rng))
+            continue
+        if pid == "C17" and rng.random() < 0.1:
+            cases.append(indexed_info_case(rng))
             continue
         if pid == "C11" and rng.random() < 0.04:
             cases.append(casava_nospace_case(rng))
@@ -878,6 +954,7 @@ def run(ctx, pid):
         results_paired = len(pres)
         if pid == "C04":
             minimal_report_part(ctx, results, pres, dist)
+            multicore_counts_part(ctx, pres, dist)
     ctx.coverage["rule"] = (
         "random valid single-end option sets inside the modelled fragment (focus: %s), 1-12 reads each with planted/edited/partial adapter copies, "
         "quality tails, N ends, poly-A tails, CASAVA and length= headers; implementation = cutadapt.cli.main in-process on the rebuilt working tree, "
@@ -937,6 +1014,52 @@ def multicore_part(ctx, pid, results, dist):
                 ctx.violation("several cores: %s differ from the one-core run" % what,
                               {"cfg": cfg.to_json(), "reads": [list(r) for r in reads], "argv": argv[5:-1], "one_core": a, "several_cores": b,
                                "why": "%s: one core %r, several cores %r" % (what, a, b)})
+    finally:
+        import shutil
+        shutil.rmtree(d, ignore_errors=True)
+
+
+def multicore_counts_part(ctx, presults, dist):
+    """C04: the reported totals are sums over the worker processes when several cores are used: paired cases re-run with 2-3
+    cores and small chunks; read counts, base-pair counts and filter categories must be those of the one-core run"""
+    from . import runnerutil as R
+    from . import pairutil as P
+
+    picked = [e for e in presults if not e.get("skip") and e["impl"]["exit"] == 0 and len(e["pairs"]) >= 3][: (6 if ctx.quick else 40)]
+    d = os.path.join(buildimpl.scratch_root(), "mc-C04")
+    os.makedirs(d, exist_ok=True)
+    try:
+        for ent in picked:
+            pcfg = ent["cfg"]
+            b, ext = pcfg.base, pcfg.base.ext()
+            for f in os.listdir(d):
+                if os.path.isfile(os.path.join(d, f)):
+                    os.remove(os.path.join(d, f))
+            pairs = []
+            for rep_ in range(1 if len(ent["pairs"]) >= 10 else 4):
+                for i, (m1, m2) in enumerate(ent["pairs"]):
+                    tag = lambda n: "%s_%d_%d%s" % (n.split(" ", 1)[0], rep_, i, (" " + n.split(" ", 1)[1]) if " " in n else "")
+                    pairs.append(((tag(m1[0]), m1[1], m1[2]), (tag(m2[0]), m2[1], m2[2])))
+            if pcfg.interleaved_in:
+                P.write_records(os.path.join(d, "in.inter." + ext), [r for pr in pairs for r in pr], b.fasta)
+            else:
+                P.write_records(os.path.join(d, "in.1." + ext), [pr[0] for pr in pairs], b.fasta)
+                P.write_records(os.path.join(d, "in.2." + ext), [pr[1] for pr in pairs], b.fasta)
+            argv = pcfg.argv(d)
+            one = R.run_cli(argv, d, 1, trace=False)
+            rep1 = R.report_without_volatile(d)
+            multi = R.run_cli(argv, d, ctx.rng.choice([2, 3]), buffer_size=ctx.rng.choice([600, 1000]), trace=False)
+            repn = R.report_without_volatile(d)
+            dist["multi-core re-runs (paired)"] = dist.get("multi-core re-runs (paired)", 0) + 1
+            if one["exit"] != 0 or multi["exit"] != 0 or rep1 is None or repn is None:
+                continue
+            ctx.count(("multicore-paired", json.dumps(pcfg.to_json(), sort_keys=True), len(pairs)), True)
+            for key in ("read_counts", "basepair_counts"):
+                if rep1.get(key) != repn.get(key):
+                    ctx.violation("several cores: reported %s differ from the one-core run" % key,
+                                  {"paired": True, "cfg": pcfg.to_json(), "pairs": [[list(m) for m in pr] for pr in pairs], "one_core": rep1.get(key), "several_cores": repn.get(key),
+                                   "why": "%s: one core %r, several cores %r" % (key, rep1.get(key), repn.get(key))})
+                    break
     finally:
         import shutil
         shutil.rmtree(d, ignore_errors=True)
@@ -1007,6 +1130,20 @@ def relative_demux_part(ctx, dist):
                 if all(sum(a != b for a, b in zip(x, y)) >= 4 for y in seqs):
                     seqs.append(x)
             mode = rng.choice(["single", "paired", "combinatorial"])
+            nofile = None
+            if _ == 0 or rng.random() < 0.1:
+                # more output files than the soft limit on open files allows: the files are still all created and filled
+                # (the limit is raised as far as the hard limit permits)
+                nofile = 64
+                mode = rng.choice(["single", "single", "paired"])
+                names = ["bc%03d" % i for i in range(rng.choice([70, 100, 150]))]
+                seqs = []
+                seen = set()
+                while len(seqs) < len(names):
+                    x = U.rand_seq(rng, 10, "ACGT")
+                    if x not in seen:
+                        seen.add(x)
+                        seqs.append(x)
             recs, want = [], {}
             for i in range(rng.choice([6, 12])):
                 k = rng.choice([None] + list(range(len(names))))
@@ -1035,8 +1172,10 @@ def relative_demux_part(ctx, dist):
                 for nm, sq in zip(names, seqs):
                     argv += ["-G", "%s=^%s" % (nm, sq)]
                 argv += ["-o", "{name1}-{name2}.1.fastq", "-p", "{name1}-{name2}.2.fastq", "in.1.fastq", "in.2.fastq"]
-            res = R.run_cli(argv, d, rng.choice([1, 1, 2]), trace=False)
+            res = R.run_cli(argv, d, rng.choice([1, 1, 2]), trace=False, nofile=nofile)
             dist["relative output templates"] = dist.get("relative output templates", 0) + 1
+            if nofile:
+                dist["more output files than the soft open-file limit"] = dist.get("more output files than the soft open-file limit", 0) + 1
             ctx.count(("reldemux", mode, tuple(recs)), True)
             why = None
             if res["exit"] != 0:
@@ -1054,10 +1193,12 @@ def relative_demux_part(ctx, dist):
                             continue
                         stem = stem[:-2]
                     got[stem] = [l[1:].strip() for l in open(os.path.join(d, f)).read().split("\n")[0::4] if l.startswith("@")]
+                if why is None and nofile and mode == "single" and set(got) != set(names) | {"unknown"}:
+                    why = "files for %d of the %d adapter names were created" % (len(set(got) & set(names)), len(names))
                 if why is None and {k: v for k, v in got.items() if v} != want:
                     why = "reads per file %r, expected %r" % ({k: v for k, v in got.items() if v}, want)
             if why:
-                ctx.violation("relative template: " + why.split(":")[0][:60], {"mode": mode, "argv": argv, "records": [list(r) for r in recs], "why": why, "relative": True})
+                ctx.violation("relative template: " + why.split(":")[0][:60], {"mode": mode, "argv": argv, "records": [list(r) for r in recs], "why": why, "relative": True, "nofile": nofile})
     finally:
         import shutil
         shutil.rmtree(d, ignore_errors=True)
